@@ -437,6 +437,40 @@ theorem reject_traces_back (cfg : Cfg) (pre : List Step) (s : Step)
     have := (cache_follows_latest cfg _ _ s.key s.answers ha' hp' hn').1
     exact ⟨pre, s, [], rfl, rfl, by rw [← this, h], ⟨ha', hp', hn'⟩, by simp [advSum]⟩
 
+/-! ## The trace theorems for the real constructor's periods -/
+
+/-- The periods of the real constructor (generated from `firewall.go`): `0 < negative < positive`.
+    Proved by unfolding the generated constants and linear arithmetic (no `decide`). -/
+theorem realCfg_spans (allow : List Nat) :
+    0 < (realCfg allow).negSpan ∧ (realCfg allow).negSpan < (realCfg allow).posSpan := by
+  unfold realCfg Gen.C21.positivePeriodSeconds Gen.C21.negativePeriodSeconds
+  constructor <;> simp only <;> omega
+
+/-- `admit_traces_back` / `reject_traces_back` for a firewall built by `AnyApplicationPolicy`: an
+    admission is backed by the allowlist or by a clean "recognized" answer at most
+    `positivePeriodSeconds` old; a rejection by a clean all-"not recognized" consultation at most
+    `negativePeriodSeconds` old — which, by `realCfg_spans`, is strictly less than the time an
+    admission may be reused. -/
+theorem real_trace_bounds (allow : List Nat) (pre : List Step) (s : Step) :
+    ((validate (realCfg allow) (after (realCfg allow) St.empty 0 pre).1
+        ((after (realCfg allow) St.empty 0 pre).2 + s.adv) s.key s.answers).1 = .accept →
+      allow.contains s.key = true ∨
+      ∃ pre1 s' pre2, pre ++ [s] = pre1 ++ s' :: pre2 ∧ s'.key = s.key ∧
+        (ask s'.answers).1 = .accept ∧ Consulted (realCfg allow) pre1 s' ∧
+        advSum pre2 ≤ Gen.C21.positivePeriodSeconds) ∧
+    ((validate (realCfg allow) (after (realCfg allow) St.empty 0 pre).1
+        ((after (realCfg allow) St.empty 0 pre).2 + s.adv) s.key s.answers).1 = .reject →
+      ∃ pre1 s' pre2, pre ++ [s] = pre1 ++ s' :: pre2 ∧ s'.key = s.key ∧
+        (ask s'.answers).1 = .reject ∧ Consulted (realCfg allow) pre1 s' ∧
+        advSum pre2 ≤ Gen.C21.negativePeriodSeconds ∧ advSum pre2 < Gen.C21.positivePeriodSeconds) := by
+  constructor
+  · intro h
+    exact admit_traces_back (realCfg allow) pre s h
+  · intro h
+    obtain ⟨pre1, s', pre2, a, b, c, d, e⟩ := reject_traces_back (realCfg allow) pre s h
+    have hs := (realCfg_spans allow).2
+    exact ⟨pre1, s', pre2, a, b, c, d, e, Nat.lt_of_le_of_lt e hs⟩
+
 /-! ## The monitor accepts every model history -/
 
 private theorem report_any (now : Nat) (c : Cache) (k : Nat) :
